@@ -120,3 +120,22 @@ func addCofactorPoint(enc []byte, tag uint64) (comp, uncomp []byte) {
 	q.y.FillBytes(uncomp[48:])
 	return compressG1(q), uncomp
 }
+
+// uncompressedForm returns the uncompressed encoding of a compressed G1 / G2 element (nil if it does not decode).
+func uncompressedForm(b []byte) []byte {
+	switch len(b) {
+	case 48:
+		var p bls12381.G1
+		if p.SetBytes(b) != nil {
+			return nil
+		}
+		return p.Bytes()
+	case 96:
+		var p bls12381.G2
+		if p.SetBytes(b) != nil {
+			return nil
+		}
+		return p.Bytes()
+	}
+	return nil
+}
